@@ -59,6 +59,12 @@ CLAIMED.update({
             "option sets with boundary values, case variants and unknown options x {RRQ,WRQ} x {single,multi}: first reply, DATA lengths and burst length observed on loopback.", "5/C09",
             "Lean 4 proof over option-negotiation model (guards extracted from source) + loopback differential correspondence"),
 })
+CLAIMED.update({
+    "C17": ("c17_groups_parse, c17_last_wins, c17_order_independent (same last occurrence per flag => same configuration, for arbitrary IP/path oracles), c17_invalid_value_is_error, c17_unknown_flag_is_error, "
+            "c17_missing_value_is_error, c17_dup_bound, c17_defaults, c17_dir_fallback, c17_help for the server parser; the client parser has the same model shape and is tied by correspondence only. "
+            "Config::new / ClientConfig::new run on permutations of flag-group subsets (long/short spellings, invalid values, unknown flags, dangling flags, help) and are compared with the model and with an independent last-occurrence evaluator.", "5/C17",
+            "Lean 4 proof (fold over flag groups, last-occurrence characterisation) + permutation correspondence on both parsers"),
+})
 PENDING = {}
 
 def main():
